@@ -425,11 +425,11 @@ impl Prop for Race {
         0
     }
     fn rule(&self) -> String {
-        "two real clients race write || delete on the same id for N rounds (OS schedule), then census + final admission probe; every case is non-trivial; distinct = (limit, flavour, rounds); a clean pass is weak evidence".into()
+        "two (flavour 3: four) real clients race write || delete on the same id for N rounds (OS schedule), then census + final admission probe; every case is non-trivial; distinct = (limit, flavour, rounds); a clean pass is weak evidence".into()
     }
     fn decode(&self, raw: &Raw, tier: Tier) -> RaceCase {
         let mut t = Tape::new(&raw.head);
-        RaceCase { limit: 3 + t.below(3), flavour: t.below(4) as u8, rounds: tier.pick(150, 600) + t.below(50) as u32 }
+        RaceCase { limit: 3 + t.below(3), flavour: t.pick(&[0u8, 1, 2, 3, 3]), rounds: tier.pick(150, 600) + t.below(50) as u32 }
     }
     fn run(&self, case: &RaceCase, env: &CaseEnv) -> Result<CaseReport, Failure> {
         let shard = super::c10::SHARD.with(|s| *s);
@@ -466,9 +466,16 @@ impl Prop for Race {
                 });
             })
         };
-        let (a, b) = (worker(true), worker(false));
-        let _ = a.join();
-        let _ = b.join();
+        // flavour 3 (overwrite || filter delete) runs two clients of each kind: its window is the
+        // narrowest and one pair of clients overlapped too rarely on a loaded machine
+        let mut workers = vec![worker(true), worker(false)];
+        if flavour == 3 {
+            workers.push(worker(true));
+            workers.push(worker(false));
+        }
+        for w in workers {
+            let _ = w.join();
+        }
         let live = s.census(vec![1, 2])?;
         s.final_probe(live.len(), case.limit, &format!("after {} rounds of racing write || delete (flavour {})", rounds, flavour)).map_err(|mut f| {
             if let Some(o) = f.sig.as_object_mut() {
